@@ -34,7 +34,7 @@ RULE = (
     "ContractableBOSS, MUSE (1 and 2 columns), ColumnEnsemble (2 columns)} (thorough: a second "
     "parameterisation of each) x label set {0,1},{1,2,3},{a,b},{b,a,c} (listed unsorted),"
     "{-1,5,20},{0.5,1.5} x {balanced, 3:1} x panel (6 = 3 value families x {12,16} training "
-    "instances; thorough 12 = + lengths 24/30) x random_state {0,1,2}; plus the forest regressor "
+    "instances, 24 time points - MUSE 16 in the quick tier; thorough 12 = + length 30) x random_state {0,1,2}; plus the forest regressor "
     "over panel x random_state. The apply set is 6 fresh mixtures of class prototypes + 4 "
     "training instances. VERIF_SEED (+ case index) only rotates the container of X "
     "(nested/ndarray) and of y (ndarray/pd.Series). non-trivial = fit accepted and all oracles "
@@ -81,8 +81,11 @@ def gen_cases(tier, seed):
                         for p, (fam, n, L) in enumerate(panels):
                             for rs in (0, 1, 2):
                                 i += 1
+                                # MUSE builds one SFA per window length 6..L-1 in pure
+                                # Python: the quick tier gives it 16-point series
+                                Lc = 16 if (name == "MUSE" and tier == "quick") else L
                                 yield dict(kind="clf", est=name, opt=opt, cols=nc, labels=lab,
-                                           balanced=balanced, fam=fam, n=n, L=L, rs=rs,
+                                           balanced=balanced, fam=fam, n=n, L=Lc, rs=rs,
                                            xc=("nested", "numpy")[(i + seed) % 2],
                                            yseries=bool(((i + seed) // 2) % 2))
 
